@@ -197,6 +197,17 @@ func checkFormatAmount(amt massutil.Amount) (string, error) {
 	return s, nil
 }
 
+// formatAmountWithUnit renders amt the way massutil.Amount.String does ("<decimal> MASS"),
+// but through AmountToString: Amount.String goes through float64, which cannot hold every
+// amount above 2^26 MASS, so the last digits of large totals were lost.
+func formatAmountWithUnit(amt massutil.Amount) (string, error) {
+	s, err := checkFormatAmount(amt)
+	if err != nil {
+		return "", err
+	}
+	return s + " " + massutil.AmountMASS.String(), nil
+}
+
 func checkWitnessAddress(address string, expectStaking bool, net *config.Params) (massutil.Address, error) {
 	addr, err := massutil.DecodeAddress(address, net)
 	if err != nil {
